@@ -1884,6 +1884,14 @@ def render_schemapred() -> str:
 
 OUT_PINS = os.path.join(os.path.dirname(OUT), "PinsSrc.lean")
 PIN_GROUPS = {
+    "resultPins": ("valid.py", ["Valid.map", "Invalid.map"]),
+    # the glue every translated `_validate_to_tuple` sits in: the tuple protocol's two bridges, the wrappers the container
+    # validators put around their children, the fast-path closure, the two "async-only in sync mode" raisers, the
+    # coercer object
+    "gluePins": [("_internal.py", ["_ToTupleValidator.__call__", "_ToTupleValidator.validate_async", "_simple_type_validator",
+                                   "_async_predicates_warning", "_raise_validate_object_async_in_sync_mode",
+                                   "_wrap_sync_validator", "_wrap_async_validator"]),
+                 ("coerce.py", ["Coercer.__call__", "coercer"])],
     "typehintPins": ("typehints.py", None),
     "signaturePins": ("signature.py", ["resolve_signature_typehint_default", "_get_validator", "_wrap_fn", "validate_signature"]),
     "schemaValidatorPins": ("serialization/json_schema.py",
@@ -1901,12 +1909,25 @@ def _is_overload(f: ast.FunctionDef) -> bool:
 
 
 def collect_pins(group: str) -> List[str]:
-    fn, names = PIN_GROUPS[group]
+    spec = PIN_GROUPS[group]
+    if isinstance(spec, list):
+        out: List[str] = []
+        for fn, names in spec:
+            out += _collect_pins_file(fn, names)
+        return out
+    return _collect_pins_file(*spec)
+
+
+def _collect_pins_file(fn: str, names) -> List[str]:
     tree = ast.parse(open(os.path.join(PKG, fn)).read())
     fns = [n for n in tree.body if isinstance(n, (ast.FunctionDef, ast.AsyncFunctionDef)) and not _is_overload(n)]
     out: List[str] = []
     for want in (names if names is not None else [f.name for f in fns]):
-        hits = [f for f in fns if f.name == want]
+        if "." in want:
+            m = _find_method(fn, *want.split("."))
+            hits = [m] if m is not None else []
+        else:
+            hits = [f for f in fns if f.name == want]
         if len(hits) != 1:
             out.append(f"{want}: <found {len(hits)} times>")
             continue
